@@ -1,4 +1,51 @@
-/-! Line-protocol driver for property C10 (stub until the model exists). -/
-def main (_args : List String) : IO UInt32 := do
-  IO.eprintln "drv_c10: no model yet"
-  return 2
+import CprocVerif.Gen.ErrorSites
+import CprocVerif.Gen.C10Catalogue
+import CprocVerif.Model.Sites
+
+/-! Driver for property C10.
+
+`drv_c10 sites` prints the coverage facts computed from the generated tables (string keys AND their
+numeric codes, which the theorems of `Props/C10.lean` are stated over):
+```
+sites <n>
+entries <n>
+class <c> <n>            (c = 0, 1, 2)
+codes-consistent <true|false>    the numeric tables are `keyCode` of the string tables
+uncovered <file>|<function>|<format>   one line per site without a catalogue entry
+stale <file>|<function>|<format>       one line per catalogue entry without a site
+```
+-/
+
+open CprocVerif.Gen CprocVerif.Sites
+
+def keyStr (k : Key) : String := k.1 ++ "|" ++ k.2.1 ++ "|" ++ k.2.2
+
+def oneLine (s : String) : String := (s.replace "\n" "\\n").replace "\t" "\\t"
+
+def sitesMode : IO UInt32 := do
+  let sites := ErrorSites.sites
+  let ents := C10Catalogue.entries
+  IO.println s!"sites {sites.length}"
+  IO.println s!"entries {ents.length}"
+  for c in [0, 1, 2] do
+    IO.println s!"class {c} {(ents.filter (·.2 == c)).length}"
+  let sc := (sites.map keyCode).toArray.qsort (· < ·) |>.toList
+  let ec := (ents.map (fun e => (keyCode e.1, e.2))).toArray.qsort (fun a b => a.1 < b.1) |>.toList
+  let cons := sc == ErrorSites.codes && ec == C10Catalogue.codes &&
+    (countClass 0 C10Catalogue.codes, countClass 1 C10Catalogue.codes, countClass 2 C10Catalogue.codes)
+      == C10Catalogue.classCounts
+  IO.println s!"codes-consistent {cons}"
+  IO.println s!"code-uncovered {(missing ErrorSites.codes (C10Catalogue.codes.map (·.1))).length}"
+  IO.println s!"code-stale {(missing (C10Catalogue.codes.map (·.1)) ErrorSites.codes).length}"
+  for k in missingKeys sites (ents.map (·.1)) do
+    IO.println ("uncovered " ++ oneLine (keyStr k))
+  for k in missingKeys (ents.map (·.1)) sites do
+    IO.println ("stale " ++ oneLine (keyStr k))
+  return 0
+
+def main (args : List String) : IO UInt32 := do
+  match args with
+  | ["sites"] => sitesMode
+  | _ =>
+    IO.eprintln "usage: drv_c10 sites"
+    return 2
